@@ -109,6 +109,12 @@ func (t *treePipeline) mkdir(r io.Reader, cfg *config) error {
 	rootStream, errcr := newRootGeneratorPipeline().generate(ctx, splitStream)
 	// when detect invalid node name, return error. process end.
 	growStream, errcg := t.grower.grow(ctx, rootStream)
+	if cfg.dryrun {
+		// when detected no invalid node name, output tree.
+		errcs := t.spreader.spread(ctx, color.Output, growStream)
+		return t.handlePipelineErr(ctx, errcsl, errcr, errcg, errcs)
+	}
+	// when detected no invalid node name, no output tree.
 	errcm := t.mkdirer.mkdir(ctx, growStream)
 	return t.handlePipelineErr(ctx, errcsl, errcr, errcg, errcm)
 }
